@@ -92,6 +92,6 @@ TAlg ==
 Init2 == Init /\ exs = <<>> /\ base = <<>>
 Next2 == /\ l <= Len(Tr)
          /\ l' = l + 1
-         /\ (TCase2 \/ TOut2 \/ TExecs2 \/ TBase \/ TRel \/ TAlg)
+         /\ (TCase2 \/ TOut2 \/ TExecs2 \/ TBase \/ TRel \/ TAlg \/ (TCrash /\ UNCHANGED <<exs, base>>))
 Spec2 == Init2 /\ [][Next2]_vars2
 =============================================================================
